@@ -143,7 +143,7 @@ func (s *DefaultSaftyRules) CheckProposal(proposal, parent QuorumCertInterface, 
 
 	// 检查justify的所有vote签名
 	justifySigns := parent.GetSignsInfo()
-	validCnt := 0
+	validAddrs := make(map[string]bool) // 同一个验证人的多个签名只能算一票
 	for _, v := range justifySigns {
 		if !isInSlice(v.GetAddress(), justifyValidators) {
 			continue
@@ -152,9 +152,9 @@ func (s *DefaultSaftyRules) CheckProposal(proposal, parent QuorumCertInterface, 
 		if ok, _ := s.Crypto.VerifyVoteMsgSign(v, parent.GetProposalId()); !ok {
 			return InvalidVoteSign
 		}
-		validCnt++
+		validAddrs[v.GetAddress()] = true
 	}
-	if !s.CalVotesThreshold(validCnt, len(justifyValidators)) {
+	if !s.CalVotesThreshold(len(validAddrs), len(justifyValidators)) {
 		return NoEnoughVotes
 	}
 	return nil
